@@ -823,7 +823,7 @@ func (w *workerState) run(job *Job) *JobResult {
 var fieldDefaults = map[string]string{
 	"readTimeout": `"10s"`, "logLevel": `"info"`, "writeQueueSize": `512`,
 	"maxReaders": `0`, "record": `false`, "sourceOnDemand": `false`, "recordDeleteAfter": `"24h"`,
-	"udpMaxPayloadSize": `1452`, "apiAllowOrigins": `["*"]`, "rtspUDPSourcePortRange": `[32768,60999]`,
+	"logFile": `"mediamtx.log"`, "webrtcIPsFromInterfaces": `true`, "apiAllowOrigins": `["*"]`, "rtspUDPSourcePortRange": `[32768,60999]`, "rpiCameraAWBGains": `[0,0]`,
 }
 
 // inverse returns the edit that leads from after (= before + op) back to before, if there is one in the API.
